@@ -329,6 +329,7 @@ func TestC17(t *testing.T) {
 				slowInjectDone = true
 				c := &InjectCase{H: seqHistory([]int{0, 1, 4, 0}, 2), At: 6, Sub: 3, DelayMs: 10500}
 				rec.Case(true, c, "inject", "inject/after-10s-of-silence")
+				journal("C17", "c17inject", c)
 				if err := checkInject(c); err != nil {
 					rec.Violation("c17inject", c, "", err)
 					rt.Fatalf("C17 violation: %v", err)
